@@ -467,17 +467,25 @@ class Client(ClientLike):
         Args:
             msg_list (Iterable[int]): A list of numeric message IDs to subscribe to
         """
-        msg_list = list(msg_list)  # cast arbitrary iterable to list
-        for mt in msg_list:
+        requested = list(msg_list)  # cast arbitrary iterable to list
+        msg_list = []
+        for mt in requested:
             if mt in self.subscribed_types:
                 warn(
                     f"Message ID {mt} is already subscribed, ignored from subscription_context"
                 )
-                msg_list.remove(mt)
+            else:
+                msg_list.append(mt)
+
+        # types that are paused on entry go back to paused (not to unsubscribed) on exit
+        paused_list = [mt for mt in msg_list if mt in self.paused_subscribed_types]
 
         self.subscribe(msg_list)
         yield
         self.unsubscribe(msg_list)
+        if paused_list:
+            self.subscribe(paused_list)
+            self.pause_subscription(paused_list)
 
     @contextmanager
     def paused_subscription_context(self, msg_list: Iterable[int]):
@@ -489,13 +497,15 @@ class Client(ClientLike):
             msg_list (Iterable[int]): A list of numeric message IDs to temporarily unsubscribe to
         """
 
-        msg_list = list(msg_list)  # cast arbitrary iterable to list
-        for mt in msg_list:
+        requested = list(msg_list)  # cast arbitrary iterable to list
+        msg_list = []
+        for mt in requested:
             if mt not in self.subscribed_types:
                 warn(
                     f"Message ID {mt} is not subscribed, ignored from paused_subscription_context"
                 )
-                msg_list.remove(mt)
+            else:
+                msg_list.append(mt)
 
         self.pause_subscription(msg_list)
         yield
